@@ -10,12 +10,15 @@ package c14
 // restart" needs reader and writer to agree for every environment and every env file.
 //
 //	rs <env> <files> <ev>;<ev>;…
-//	    env   = x<val>h<val>          XDG_CONFIG_HOME and HOME of the process: - unset | e empty | 0..3 a directory
+//	    env   = x<val>h<val>[d<val>]  XDG_CONFIG_HOME, HOME [and XDG_DATA_HOME] of the process: - unset | e empty | 0..3 a directory
+//	                                  (without d: XDG_DATA_HOME is a fixed private directory)
 //	    files = . | <file>/<file>/…   the --envfile files, in order; file = _ (empty) | <var>=<val>,…  var = x | h | o
 //	    ev    = S:<r|->:<cfg>   start `caddy run [--resume] --envfile … --config <file holding cfg>` (a new process)
 //	          | P:<cfg>         POST /load <cfg> on the admin socket of the running process
 //	          | K               SIGKILL the running process
-//	    cfg   = <n><p|d|n>[x]   config number, admin.config.persist true / absent / false, x = its app fails to provision
+//	    cfg   = <n><p|d|n>[x|k] config number (k = with the pki app on caddy's DEFAULT storage: the answer then shows the
+//	                            running root and the root.crt under the data directory of the environment after / before
+//	                            the env files: /r<id>, ra=<id>, rb=<id>), admin.config.persist true / absent / false, x = its app fails to provision
 //	          | c<n><d|n>       (S only) a CADDYFILE, adapted by the real httpcaddyfile adapter (`--adapter caddyfile`):
 //	                            global options `admin … { origins n<n>.c14.test }` (the number) and, for n, `persist_config off`
 //	answer per event: S=<running config>|S=fail   P=<ok|rej>   K   each followed by {a=<autosave file at the path
@@ -79,6 +82,7 @@ type rsCfg struct {
 	n         string
 	persist   byte
 	fail      bool
+	pki       bool
 	caddyfile bool
 }
 
@@ -87,13 +91,16 @@ func (c rsCfg) token() string {
 	if c.fail {
 		t += "x"
 	}
+	if c.pki {
+		t += "k"
+	}
 	return t
 }
 
 func parseRSCfg(s string) (rsCfg, bool) {
 	if strings.HasPrefix(s, "c") {
 		c, ok := parseRSCfg(s[1:])
-		if !ok || c.fail || c.persist == 'p' {
+		if !ok || c.fail || c.pki || c.persist == 'p' {
 			return rsCfg{}, false
 		}
 		c.caddyfile = true
@@ -111,6 +118,8 @@ func parseRSCfg(s string) (rsCfg, bool) {
 	case "":
 	case "x":
 		c.fail = true
+	case "k":
+		c.pki = true
 	default:
 		return rsCfg{}, false
 	}
@@ -124,6 +133,7 @@ type rsEvent struct {
 }
 
 type rsCase struct {
+	data      rsVal // XDG_DATA_HOME; kind 0 = not part of the case (a fixed private directory)
 	xdg, home rsVal
 	files     [][]rsAssign
 	evs       []rsEvent
@@ -135,6 +145,14 @@ func parseRS(f []string) (rsCase, bool) {
 		return c, false
 	}
 	e := f[0]
+	if len(e) == 6 && e[4] == 'd' {
+		v, ok := parseRSVal(e[5:6])
+		if !ok {
+			return c, false
+		}
+		c.data = v
+		e = e[:4]
+	}
 	if len(e) != 4 || e[0] != 'x' || e[2] != 'h' {
 		return c, false
 	}
@@ -150,7 +168,7 @@ func parseRS(f []string) (rsCase, bool) {
 			if fs != "_" {
 				for _, a := range strings.Split(fs, ",") {
 					kv := strings.Split(a, "=")
-					if len(kv) != 2 || len(kv[0]) != 1 || !strings.Contains("xho", kv[0]) {
+					if len(kv) != 2 || len(kv[0]) != 1 || !strings.Contains("xhod", kv[0]) {
 						return c, false
 					}
 					v, ok := parseRSVal(kv[1])
@@ -195,7 +213,7 @@ func parseRS(f []string) (rsCase, bool) {
 // ---- the two places the autosave file can be: by the process environment alone ("b"), and by
 // the environment after the env files ("a")
 
-type rsEnv struct{ xdg, home rsVal }
+type rsEnv struct{ xdg, home, data rsVal }
 
 func (e rsEnv) apply(file []rsAssign) rsEnv {
 	for _, a := range file {
@@ -208,9 +226,28 @@ func (e rsEnv) apply(file []rsAssign) rsEnv {
 			if e.home.kind == '-' {
 				e.home = a.val
 			}
+		case 'd':
+			if e.data.kind == '-' {
+				e.data = a.val
+			}
 		}
 	}
 	return e
+}
+
+// rootPath: root.crt of CA "local" on caddy's default storage (AppDataDir: XDG_DATA_HOME, else
+// HOME/.local/share, else ./caddy)
+func (e rsEnv) rootPath(work string) string {
+	base := filepath.Join(work, "cwd", "caddy")
+	switch {
+	case e.data.kind == 0:
+		base = filepath.Join(work, "data", "caddy")
+	case e.data.kind == 'd':
+		base = filepath.Join(work, "d"+strconv.Itoa(e.data.dir), "caddy")
+	case e.home.kind == 'd':
+		base = filepath.Join(work, "d"+strconv.Itoa(e.home.dir), ".local", "share", "caddy")
+	}
+	return filepath.Join(base, "pki", "authorities", "local", "root.crt")
 }
 
 func (e rsEnv) autosavePath(work string) string {
@@ -236,10 +273,14 @@ func (c rsCfg) json(sock string) []byte {
 	if c.fail {
 		probe["fail"] = "provision"
 	}
+	apps := map[string]any{"c14probe": probe}
+	if c.pki {
+		apps["pki"] = map[string]any{"certificate_authorities": map[string]any{"local": map[string]any{"install_trust": false}}}
+	}
 	b, _ := json.Marshal(map[string]any{
 		"admin":   admin,
 		"logging": map[string]any{"logs": map[string]any{"default": map[string]any{"writer": map[string]any{"output": "discard"}}}},
-		"apps":    map[string]any{"c14probe": probe},
+		"apps":    apps,
 	})
 	return b
 }
@@ -325,14 +366,14 @@ func runRS(line string, f []string) core.Outcome {
 		var sb strings.Builder
 		sb.WriteString("# C14 rs case\n")
 		for _, a := range file {
-			name := map[byte]string{'x': "XDG_CONFIG_HOME", 'h': "HOME", 'o': "C14_OTHER"}[a.v]
+			name := map[byte]string{'x': "XDG_CONFIG_HOME", 'h': "HOME", 'o': "C14_OTHER", 'd': "XDG_DATA_HOME"}[a.v]
 			fmt.Fprintf(&sb, "%s=%s\n", name, valStr(a.val))
 		}
 		p := filepath.Join(work, fmt.Sprintf("env%d", i))
 		os.WriteFile(p, []byte(sb.String()), 0o600)
 		envArgs = append(envArgs, "--envfile", p)
 	}
-	penv := rsEnv{c.xdg, c.home}
+	penv := rsEnv{c.xdg, c.home, c.data}
 	aenv := penv
 	for _, file := range c.files {
 		aenv = aenv.apply(file)
@@ -345,7 +386,71 @@ func runRS(line string, f []string) core.Outcome {
 		}
 		return tokOfJSON(b)
 	}
-	state := func() string { return "{a=" + fileTok(pathA) + ",b=" + fileTok(pathB) + "}" }
+	tags := map[string]bool{}
+	// root identities, named in order of first appearance
+	rootIDs := map[string]int{}
+	rootID := func(pemBytes []byte) string {
+		c, err := decodeCert(pemBytes)
+		if err != nil {
+			if len(pemBytes) == 0 {
+				return "-"
+			}
+			return "?"
+		}
+		k := string(c.Raw)
+		if _, ok := rootIDs[k]; !ok {
+			rootIDs[k] = len(rootIDs)
+		}
+		return strconv.Itoa(rootIDs[k])
+	}
+	rootA, rootB := aenv.rootPath(work), penv.rootPath(work)
+	usesPKI := false
+	for _, ev := range c.evs {
+		if ev.cfg.pki {
+			usesPKI = true
+		}
+	}
+	state := func() string {
+		s := "{a=" + fileTok(pathA) + ",b=" + fileTok(pathB)
+		if usesPKI {
+			ba, _ := os.ReadFile(rootA)
+			bb, _ := os.ReadFile(rootB)
+			s += ",ra=" + rootID(ba) + ",rb=" + rootID(bb)
+		}
+		return s + "}"
+	}
+	// the root the running process uses (admin API of the pki app)
+	runningRoot := func() []byte {
+		resp, err := caddycmd.AdminAPIRequest(adminAddr, http.MethodGet, "/pki/ca/local", nil, nil)
+		if err != nil {
+			return nil
+		}
+		defer resp.Body.Close()
+		var v struct {
+			Root string `json:"root_certificate"`
+		}
+		if resp.StatusCode != 200 || json.NewDecoder(resp.Body).Decode(&v) != nil {
+			return nil
+		}
+		return []byte(v.Root)
+	}
+	var firstRoot []byte // the root of the first process that had one: every later process must use it
+	checkRoot := func(i int, tok string) string {
+		cfg, ok := parseRSCfg(tok)
+		if !ok || !cfg.pki {
+			return ""
+		}
+		r := runningRoot()
+		id := rootID(r)
+		tags["pki-on-default-storage"] = true
+		if firstRoot == nil {
+			firstRoot = r
+		} else if string(r) != string(firstRoot) {
+			fail("rs-root-not-reloaded-unchanged",
+				fmt.Sprintf("event %d of %q: the running CA root is not the one an earlier process of this history (same environment, same env files) created", i+1, line))
+		}
+		return "/r" + id
+	}
 
 	var proc *exec.Cmd
 	var procExited chan struct{}
@@ -370,7 +475,6 @@ func runRS(line string, f []string) core.Outcome {
 		}
 		return tokOfJSON(b), true
 	}
-	tags := map[string]bool{}
 	if pathA != pathB {
 		tags["envfile-moves-autosave-path"] = true
 	}
@@ -410,7 +514,11 @@ func runRS(line string, f []string) core.Outcome {
 			if (res == "ok") == ev.cfg.fail {
 				fail("harness-probe-config-verdict", fmt.Sprintf("event %d of %q: push of %s: %s", i+1, line, ev.cfg.token(), res))
 			}
-			outs = append(outs, "P="+res+state())
+			rr := ""
+			if res == "ok" {
+				rr = checkRoot(i, ev.cfg.token())
+			}
+			outs = append(outs, "P="+res+rr+state())
 		case 'S':
 			kill() // a new start means the old process is gone
 			cfgPath := filepath.Join(work, fmt.Sprintf("config%d.json", i))
@@ -432,7 +540,14 @@ func runRS(line string, f []string) core.Outcome {
 			exe, _ := os.Executable()
 			cmd := exec.Command(exe, args...)
 			cmd.Dir = filepath.Join(work, "cwd")
-			cmd.Env = []string{asCaddyEnvC14 + "=1", "PATH=" + os.Getenv("PATH"), "XDG_DATA_HOME=" + filepath.Join(work, "data")}
+			cmd.Env = []string{asCaddyEnvC14 + "=1", "PATH=" + os.Getenv("PATH")}
+			switch c.data.kind {
+			case 0:
+				cmd.Env = append(cmd.Env, "XDG_DATA_HOME="+filepath.Join(work, "data"))
+			case '-':
+			default:
+				cmd.Env = append(cmd.Env, "XDG_DATA_HOME="+valStr(c.data))
+			}
 			if c.xdg.kind != '-' {
 				cmd.Env = append(cmd.Env, "XDG_CONFIG_HOME="+valStr(c.xdg))
 			}
@@ -477,6 +592,16 @@ func runRS(line string, f []string) core.Outcome {
 							i+1, line, tok, lastPersisted, fileTok(pathA), fileTok(pathB)))
 				}
 			}
+			// what came up is the --config file iff its number shows; then it must say about persistence
+			// what the file says (for a Caddyfile: across the adapter), and act on it
+			if got, ok := parseRSCfg(tok); ok && got.n == ev.cfg.n && got.persist != ev.cfg.persist {
+				fail("rs-config-persistence-flag-lost",
+					fmt.Sprintf("event %d of %q: the config file says persistence %q, the running config says %q", i+1, line, string(ev.cfg.persist), string(got.persist)))
+				if now, _ := os.ReadFile(pathA); ev.cfg.persist == 'n' && string(now) != string(autosaveBefore) {
+					fail("rs-autosave-written-although-persistence-off",
+						fmt.Sprintf("event %d of %q: the config file turns persistence off, yet starting with it changed the autosave file to %s", i+1, line, tokOfJSON(now)))
+				}
+			}
 			// the start-up's own load persists, too — unless its config says not to
 			if len(tok) > 0 && tok != "~" {
 				if cfg, ok := parseRSCfg(tok); ok && cfg.persist != 'n' {
@@ -492,7 +617,7 @@ func runRS(line string, f []string) core.Outcome {
 					}
 				}
 			}
-			outs = append(outs, "S="+tok+state())
+			outs = append(outs, "S="+tok+checkRoot(i, tok)+state())
 		}
 	}
 	o.Impl = strings.Join(outs, " ")
